@@ -156,6 +156,15 @@ Theorem C10_after_any_history_each_tree_is_read_back_by_its_root_name :
 Proof. exact history_then_read. Qed.
 Print Assumptions C10_after_any_history_each_tree_is_read_back_by_its_root_name.
 
+Theorem C10_after_any_history_a_read_without_a_path_reports_exactly_the_root_names :
+  forall c c0 steps ts tr,
+    ts <> [] -> Forall (fun t => rcls t = CRoot) ts -> NoDup (map rname ts) -> hgood ts steps ->
+    2 <= length (fold_left happly steps ts) ->
+    exists f names, fold_left (fun s st => snd (write_node c s (hroot st) [] (WA (hmode st) (htree st) None))) steps (H5 (forest_file c0 ts)) = H5 f /\
+                    read (H5 f) None tr = Ok (RNames names) /\ Permutation names (map rname (fold_left happly steps ts)).
+Proof. exact history_then_read_names. Qed.
+Print Assumptions C10_after_any_history_a_read_without_a_path_reports_exactly_the_root_names.
+
 (* a list of roots and unrooted items saved (append / append-over) into a file that may already hold some of the listed
    roots: the listed trees are handled one after the other, each a new tree, an append or an append-over according to what
    the file holds when its turn comes (steps = that classification, one step per listed tree, in list order) *)
